@@ -378,3 +378,163 @@ def iterator_rules(ctx):
                       "version is written back on unlock and lock-free readers miss the removal" % fn.nodes[s]["l"], fn.where(s), fn=fn)
         ctx.check(len(finals) >= 3, rid2, V + "erase(iterator&)#three-cases", "%d removal paths bump the version" % len(finals),
                   "erase(iterator&) must bump the bucket version on each of its three removal paths (found %d)" % len(finals), fn.where(), fn=fn)
+
+
+# ---------------------------------------------------------------------------------------------------------------
+def cursor_prev_pairing(ctx):
+    """C11.c strengthened: wherever the extension cursor advances along ->next, the exported predecessor link is advanced with it"""
+    rid = "VHM.iterator-position"
+    I = V + "iterator::"
+    for pat in (V + "find", I + "operator++", V + "do_extract"):
+        for fn in flow._shapes(ctx, pat):
+            if pat.endswith("::find") and len(fn.params) != 1:
+                continue
+            adv = []
+            for b, i, e, n in fn.events():
+                a = fn.atomic(e)
+                if not a or a["kind"] != "load" or not a["field"].endswith("extension_item::next"):
+                    continue
+                # is the result assigned to the cursor?
+                tgt = None
+                for x, xn in enumerate(fn.nodes):
+                    if xn["k"] == "bin" and xn["op"] == "=" and e in fn.kids(x)[1:2]:
+                        tgt = fn.expr(fn.kids(x)[0])
+                    elif xn["k"] == "decl":
+                        for v in xn["vars"]:
+                            if v.get("init") == e:
+                                tgt = v["name"]
+                if tgt is None or not re.search(r"(^|\.|->)extension$", tgt):
+                    continue
+                adv.append((e, tgt))
+            for e, tgt in adv:
+                obj = fn.kids(e)[0]
+                otxt = fn.expr(obj)
+                inst = pat + "#advance-keeps-prev"
+                if "prev" in otxt:
+                    ctx.ok(rid, inst, "cursor advanced by loading through the predecessor link (%s)" % otxt, fn.where(e), fn=fn)
+                    continue
+                # cursor->next.load(): the predecessor link must be set to &cursor->next before
+                want = "&" + otxt
+                sets = [x for b, i, x, xn in fn.events() if xn["k"] == "bin" and xn["op"] == "=" and "prev" in fn.expr(fn.kids(x)[0]) and fn.expr(fn.kids(x)[1]) == want]
+                ok = any(fn.before(s, e) for s in sets)
+                ctx.check(ok, rid, inst, "predecessor link set to %s before the cursor advances" % want,
+                          "the extension cursor advances along %s but the exported predecessor link (prev) is not advanced with it: erase(iterator&) later unlinks "
+                          "through a stale prev and drops every extension item in front of the erased one" % otxt, fn.where(e), fn=fn)
+
+
+def _bs_eval(fn, nid, env, depth=0):
+    """abstract value of a bucket_state expression: dict(base, dv, dc, lock, marker) or None"""
+    if depth > 12:
+        return None
+    n = fn.nodes[nid]
+    k = n["k"]
+    c = fn.kids(nid)
+    if k == "member" and n.get("leaf") == "current_bucket_state":
+        return dict(env.get("cache")) if env.get("cache") else None
+    if k == "ref" and n.get("dk") in ("local", "param"):
+        v = env.get(n["name"])
+        return dict(v) if v else None
+    if k in ("construct", "cast") and len(c) == 1:
+        return _bs_eval(fn, c[0], env, depth + 1)
+    if k == "call":
+        leaf = n.get("callee", "").split("::")[-1]
+        if leaf in ("locked", "clear_lock", "new_version", "dec_item_count", "inc_item_count", "set_delete_marker") and c:
+            v = _bs_eval(fn, c[0], env, depth + 1)
+            if v is None:
+                return None
+            if leaf == "locked":
+                v["lock"] = 1
+            elif leaf == "clear_lock":
+                v["lock"] = 0
+            elif leaf == "new_version":
+                v["dv"] += 1
+            elif leaf == "dec_item_count":
+                v["dc"] -= 1
+            elif leaf == "inc_item_count":
+                v["dc"] += 1
+            elif leaf == "set_delete_marker":
+                v["marker"] = fn.expr(c[1]) if len(c) > 1 else "?"
+            return v
+        if leaf == "move" and c:
+            return _bs_eval(fn, c[0], env, depth + 1)
+    return None
+
+
+def cache_coherence(ctx):
+    """C11.b strengthened (K9): abstract values (base, d-version, d-count, lock, marker) of bucket_state expressions are tracked along every path of
+    erase(iterator&); at every exit and at every call that writes the cache back, the cached state must equal the last state stored to the bucket with
+    the lock bit cleared."""
+    rid = "VHM.cache-coherence"
+    ctx.rule(rid, "erase(iterator&): on every path the iterator's cached bucket state equals the last state stored to the bucket (same version and item count, "
+                  "no marker) with the lock bit cleared, at every exit and before every write-back (move_to_next_bucket / reset) - abstract interpretation of the "
+                  "bucket_state algebra (new_version, locked, clear_lock, dec_item_count, set_delete_marker)")
+    for fn in flow._shapes(ctx, V + "erase"):
+        if not any(p["name"] == "pos" for p in fn.params):
+            continue
+        results = []
+        stack = [(fn.entry, {"cache": {"base": "S0", "dv": 0, "dc": 0, "lock": 0, "marker": None}}, None, {})]
+        npaths = 0
+        while stack and npaths < 500:
+            b, env, stored, visits = stack.pop()
+            visits = dict(visits)
+            visits[b] = visits.get(b, 0) + 1
+            if visits[b] > 2:
+                continue
+            env = dict(env)
+            blk = fn.blocks[b]
+            ended = False
+            for e in blk["elems"]:
+                n = fn.nodes[e]
+                if n["k"] == "decl":
+                    for v in n["vars"]:
+                        if "init" in v and "bucket_state" in v.get("t", ""):
+                            env[v["name"]] = _bs_eval(fn, v["init"], env)
+                elif n["k"] == "call":
+                    leaf = n.get("callee", "").split("::")[-1]
+                    c = fn.kids(e)
+                    if leaf == "operator=" and n.get("member") and len(c) == 2 and "bucket_state" in n.get("callee", ""):
+                        val = _bs_eval(fn, c[1], env)
+                        lhs = fn.nodes[c[0]]
+                        if lhs["k"] == "member" and lhs.get("leaf") == "current_bucket_state":
+                            env["cache"] = val
+                        elif lhs["k"] == "ref":
+                            env[lhs["name"]] = val
+                    a = fn.atomic(e)
+                    if a and a["op"] == "store" and a["field"].endswith("bucket::state"):
+                        stored = _bs_eval(fn, c[1], env)
+                        if stored is None:
+                            stored = {"base": "?", "dv": None, "dc": None, "lock": None, "marker": None}
+                    if leaf in ("move_to_next_bucket", "reset") and "iterator" in n.get("callee", ""):
+                        results.append((e, dict(env["cache"]) if env.get("cache") else None, dict(stored) if stored else None, "write-back via " + leaf))
+                        ended = True
+                        break
+                elif n["k"] == "return":
+                    results.append((e, dict(env["cache"]) if env.get("cache") else None, dict(stored) if stored else None, "return"))
+                    ended = True
+                    break
+            if ended:
+                npaths += 1
+                continue
+            succ = [s for s in blk["succ"] if s is not None]
+            if b == fn.exit or not succ:
+                npaths += 1
+                results.append((None, dict(env["cache"]) if env.get("cache") else None, dict(stored) if stored else None, "exit"))
+                continue
+            for s in succ:
+                stack.append((s, env, stored, visits))
+        n_checked = 0
+        bad = None
+        for e, cache, stored, how in results:
+            if stored is None:
+                continue  # nothing stored on this path
+            n_checked += 1
+            if cache is None or stored.get("dv") is None:
+                bad = (e, "cached state or stored state not derivable on a path ending in %s" % how)
+                break
+            if not (cache["base"] == stored["base"] and cache["dv"] == stored["dv"] and cache["dc"] == stored["dc"] and cache["lock"] == 0 and not cache["marker"]):
+                bad = (e, "at %s the cached state is (version %+d, items %+d, lock %s) but the last state stored to the bucket is (version %+d, items %+d): the value "
+                          "written back on unlock %s" % (how, cache["dv"], cache["dc"], cache["lock"], stored["dv"], stored["dc"],
+                                                         "rolls the version back (readers miss a removal)" if cache["dv"] < stored["dv"] else "differs from the published state"))
+                break
+        ctx.check(bad is None and n_checked >= 3, rid, V + "erase(iterator&)#cache==stored", "%d paths: cached state equals the last stored state with the lock cleared" % n_checked,
+                  bad[1] if bad else "fewer than three removal paths store a state (%d)" % n_checked, fn.where(bad[0]) if bad and bad[0] is not None else fn.where(), fn=fn)
